@@ -176,3 +176,90 @@ pub mod memo {
 pub fn stub_pubkey_display(_k: &anchor_lang::prelude::Pubkey, _f: &mut core::fmt::Formatter<'_>) -> core::fmt::Result {
     Ok(())
 }
+
+/// `anchor_lang::error::Error::with_account_name(name)` replacement (identity): the origin annotation of an error is never
+/// observed (only its code); the real one allocates a `String` per failing constraint (measured: symex 336 s -> 110 s and
+/// SAT variables 3.8 M -> 2.4 M on an 11-account `try_accounts`). Use as
+/// `#[kani::stub(anchor_lang::error::Error::with_account_name, stub_with_account_name)]`.
+pub fn stub_with_account_name<T: alloc::string::ToString>(e: AErr, _name: T) -> AErr {
+    e
+}
+
+// ---------------------------------------------------------------------------------------------
+// Ideal-hash model of `Pubkey::find_program_address` (sha256 + curve check cannot run symbolically).
+// A memo table makes the stub a *function* of (seeds, program id): equal inputs give the equal (address, bump),
+// a new input gives an arbitrary address / bump (collisions are allowed, i.e. the model over-approximates the
+// real hash; the real function additionally only returns off-curve addresses, which no harness relies on).
+// Bounds (asserted): at most 6 seeds of at most 32 bytes each, at most 4 distinct derivations per harness.
+#[cfg(kani)]
+pub mod pda {
+    use anchor_lang::prelude::Pubkey;
+    pub const MAX_SEEDS: usize = 6;
+    const N: usize = 4;
+    static mut K_SEEDS: [[[u8; 32]; MAX_SEEDS]; N] = [[[0; 32]; MAX_SEEDS]; N];
+    static mut K_LENS: [[usize; MAX_SEEDS]; N] = [[0; MAX_SEEDS]; N];
+    static mut K_N: [usize; N] = [0; N];
+    static mut K_PID: [[u8; 32]; N] = [[0; 32]; N];
+    static mut V: [([u8; 32], u8); N] = [([0; 32], 0); N];
+    static mut CNT: usize = 0;
+
+    pub fn derive(seeds: &[&[u8]], program_id: &Pubkey) -> (Pubkey, u8) {
+        assert!(seeds.len() <= MAX_SEEDS, "pda model bound: number of seeds");
+        let mut s = [[0u8; 32]; MAX_SEEDS];
+        let mut l = [0usize; MAX_SEEDS];
+        let mut i = 0;
+        while i < seeds.len() {
+            let x = seeds[i];
+            assert!(x.len() <= 32, "pda model bound: seed length");
+            let mut j = 0;
+            while j < x.len() {
+                s[i][j] = x[j];
+                j += 1;
+            }
+            l[i] = x.len();
+            i += 1;
+        }
+        let pid = program_id.to_bytes();
+        unsafe {
+            let mut e = 0;
+            while e < CNT {
+                // branch-free comparison (a slice `==` would be one memcmp over 192 bytes)
+                let mut same = K_N[e] == seeds.len();
+                let mut a = 0;
+                while a < MAX_SEEDS {
+                    same &= K_LENS[e][a] == l[a];
+                    let mut b = 0;
+                    while b < 32 {
+                        same &= K_SEEDS[e][a][b] == s[a][b];
+                        b += 1;
+                    }
+                    a += 1;
+                }
+                let mut b = 0;
+                while b < 32 {
+                    same &= K_PID[e][b] == pid[b];
+                    b += 1;
+                }
+                if same {
+                    return (Pubkey::new_from_array(V[e].0), V[e].1);
+                }
+                e += 1;
+            }
+            assert!(CNT < N, "memo table bound (find_program_address)");
+            let k: [u8; 32] = kani::any();
+            let b: u8 = kani::any();
+            K_N[CNT] = seeds.len();
+            K_LENS[CNT] = l;
+            K_SEEDS[CNT] = s;
+            K_PID[CNT] = pid;
+            V[CNT] = (k, b);
+            CNT += 1;
+            (Pubkey::new_from_array(k), b)
+        }
+    }
+}
+/// replacement of `Pubkey::find_program_address` (see `pda`)
+#[cfg(kani)]
+pub fn stub_find_program_address(seeds: &[&[u8]], program_id: &anchor_lang::prelude::Pubkey) -> (anchor_lang::prelude::Pubkey, u8) {
+    pda::derive(seeds, program_id)
+}
